@@ -177,8 +177,10 @@ Inductive case :=
        sm = the body of the StackMapTable attribute of the written method, if there is one *)
 | CBsm (entries : list (list N))
     (* the BootstrapMethods table of a written class, in file order (method_ref, arguments) *)
-| CClass (strings : list packed) (t : (N -> list N) -> cclass) (r : kanswer) (dec : bool).
+| CClass (strings : list packed) (uni : list (N * option (list N))) (t : (N -> list N) -> cclass) (r : kanswer) (dec : bool).
     (* a whole tree (strings by index into the table) and the class file duke::write_class produced;
+       uni: for the table entry k that is a string with a character outside 1..127, (k, Some code points); for an
+       entry that is not a string (attribute content), (k, None); every other entry is a string of characters 1..127;
        dec: the tree was read by duke: it must satisfy the hypothesis cclass_ok of C02_write_class_decodes, and
        the decoder of C02/Decode.v applied to the bytes must give the facts of the tree *)
 
@@ -254,6 +256,23 @@ Definition check_bsm (es : list (list N)) : bool :=
   | Err => false
   end.
 
+(* the strings of a whole-class case are the modified UTF-8 (C02/Class.v mutf8, from JVMS 4.4.7) of their characters *)
+Fixpoint uni_find (uni : list (N * option (list N))) (k : N) : option (option (list N)) :=
+  match uni with
+  | [] => None
+  | (j, v) :: r => if N.eqb j k then Some v else uni_find r k
+  end.
+Fixpoint check_strings (tbl : list (list N)) (uni : list (N * option (list N))) (k : N) : bool :=
+  match tbl with
+  | [] => true
+  | b :: r =>
+      match uni_find uni k with
+      | Some (Some cps) => list_eqb N.eqb (mutf8 cps) b
+      | Some None => true
+      | None => forallb (fun x => (0 <? x)%N && (x <? 128)%N) b
+      end && check_strings r uni (N.succ k)
+  end.
+
 Definition check (c : case) : bool :=
   match c with
   | CWrite hasmax rb last tb r =>
@@ -271,15 +290,16 @@ Definition check (c : case) : bool :=
       | LDC2_W _ => (form =? 20)%N
       end
   | CBsm es => check_bsm es
-  | CClass strings t r dec =>
+  | CClass strings uni t r dec =>
       let tbl := map unpacked strings in
       let tree := t (lookup tbl) in
+      check_strings tbl uni 0%N &&
       match write_class_aux tree, r with
-      | OK (bs, aux), KOk p =>
+      | WOK (bs, aux), KOk p =>
           list_eqb N.eqb bs (unpacked p)
           && (negb dec || (cclass_ok tree && cclass_np tree && match facts_of tree aux, parse_class bs with Some d, Some d' => dclass_eqb d d' | _, _ => false end))
-      | ERR, KErr => true
-      | PANIC, KPanic => true
+      | WERR _, KErr => true
+      | WPANIC, KPanic => true
       | _, _ => false
       end
   | CWriteF hasmax rb last tb fs r sm =>
